@@ -14,7 +14,9 @@ static uint64_t bytes_hash(const TypeOps& t, const Bytes& b) { return fnv1a(b.da
 
 // ---- mutators ----------------------------------------------------------------------------------
 
-static const uint64_t kSpecialValues[] = {0, 1, 2, 127, 128, 255, 256, 65535, 65536, 1ull << 31, 1ull << 32, (1ull << 32) + 1, 1ull << 62, 1ull << 63, ~0ull, ~0ull - 1, (uint64_t)-2, (uint64_t)-65, (uint64_t)-129};
+static const uint64_t kSpecialValues[] = {0, 1, 2, 127, 128, 255, 256, 65535, 65536, 1ull << 31, 1ull << 32, (1ull << 32) + 1, 1ull << 62, 1ull << 63, ~0ull, ~0ull - 1, (uint64_t)-2, (uint64_t)-65, (uint64_t)-129,
+                                          // sizes within a few bytes of 2^64: position + size wraps around in unchecked arithmetic
+                                          (uint64_t)-3, (uint64_t)-4, (uint64_t)-5, (uint64_t)-8, (uint64_t)-9, (uint64_t)-10, (uint64_t)-11, (uint64_t)-12, (uint64_t)-16, (uint64_t)-24, (uint64_t)-32, (uint64_t)-64};
 
 // Permutes / duplicates / drops table entries on the writer side (schema-level mutation).
 static void mutate_tables(const Schema& s, const Value& v, Tape& tp, Schema& os, Value& ov, std::vector<std::string>& what, bool& done) {
@@ -100,6 +102,25 @@ Mutated mutate(const TypeOps& t, const Value& v, Tape& tp, int nmut, const Value
       std::string w;
       if (overfill_lbuf(s, val, tp, w)) { m.what.push_back(w); m.inflated_len = true; probe = ref_encode(s, val); eo.overrides.clear(); continue; }
       kind = tp.below(9);
+    }
+    if (kind == 4 && t.has_table && tp.below(3) == 0) {
+      // "rewind": an entry size that, added to the reader position with wrap-around, lands back on the
+      // start of the same entry, combined with an entry count of 2^64-1 (a decoder whose Skip wraps
+      // re-parses the same entry for ever)
+      std::vector<size_t> sz, ids, cnts;
+      for (size_t fi = 0; fi < probe.fields.size(); fi++) { if (probe.fields[fi].kind == F::EntrySize) sz.push_back(fi); if (probe.fields[fi].kind == F::EntryId) ids.push_back(fi); if (probe.fields[fi].kind == F::EntryCount) cnts.push_back(fi); }
+      if (!sz.empty() && !cnts.empty()) {
+        size_t k = (size_t)tp.below(sz.size()); size_t fi = sz[k];
+        size_t id_off = 0; for (size_t ii : ids) if (probe.fields[ii].off < probe.fields[fi].off) id_off = probe.fields[ii].off;
+        // after the (9-byte, U64-class) size field the reader stands at size_off + 9
+        uint64_t back = (uint64_t)(probe.fields[fi].off + 9 - id_off);
+        Override ov; ov.what = Override::SetValue; ov.value = (uint64_t)0 - back; eo.overrides[fi] = ov;
+        Override oc; oc.what = Override::SetValue; oc.value = ~0ull;
+        for (size_t ci : cnts) if (probe.fields[ci].off < probe.fields[fi].off) eo.overrides[ci] = oc;
+        m.what.push_back(fmt("field %zu (entry size) := 2^64-%llu (rewinds to the entry start) with entry count 2^64-1", fi, (unsigned long long)back));
+        m.inflated_len = true;
+        continue;
+      }
     }
     if (kind == 9 && t.has_table) {
       Schema ns; Value nv; bool done = false;
